@@ -181,7 +181,7 @@ impl ChunkDeserializer {
     /// This method should almost always be called only in reaction to receiving a `SetChunkSize`
     /// message from the other end.
     pub fn set_max_chunk_size(&mut self, new_size: usize) -> Result<(), ChunkDeserializationError> {
-        if new_size > 2147483647 {
+        if new_size == 0 || new_size > 2147483647 {
             return Err(ChunkDeserializationError::InvalidMaxChunkSize {
                 chunk_size: new_size,
             });
